@@ -701,7 +701,10 @@ fn new_mref<T: Num>(cfg: &Cfg) -> MTBDDManagerRef<T> {
     let mref = oxidd::mtbdd::new_manager::<T>(cfg.inner, cfg.terms, cfg.cache, cfg.threads);
     mref.with_manager_exclusive(|m| {
         if cfg.threads > 1 {
-            m.workers().set_split_depth(Some(u32::MAX));
+            // mostly MAX (parallel recursion throughout); otherwise a small depth, so that the
+            // parallel recursor hands over to the sequential one inside an operation
+            let d = [u32::MAX, 1, u32::MAX, 2][(cfg.cache.trailing_zeros() as usize + cfg.n as usize) % 4];
+            m.workers().set_split_depth(Some(d));
         }
         m.add_vars(cfg.n);
     });
